@@ -207,6 +207,12 @@ class _TFloat(T):
     def fresh(self, name, st):
         return VFloat(st.fresh_const(name, Opq))
 
+    def sort(self):
+        return Opq
+
+    def wrap(self, t):
+        return VFloat(t)
+
 
 class _TStr(T):
     def fresh(self, name, st):
@@ -327,12 +333,64 @@ def opt_term(v):
     raise Unsupported(f"cannot store {v.ty} as Optional[int]")
 
 
+_tuple_sorts: dict = {}
+
+
 class TTuple(T):
     def __init__(self, items):
         self.items = items
 
     def fresh(self, name, st):
         return VTuple([t.fresh(f"{name}!{i}", st) for i, t in enumerate(self.items)])
+
+    def sort(self):
+        key = tuple(t.sort().name() for t in self.items)
+        if key not in _tuple_sorts:
+            dt = z3.Datatype("Tup_" + "_".join(key))
+            dt.declare("mk", *[(f"f{i}", t.sort()) for i, t in enumerate(self.items)])
+            _tuple_sorts[key] = dt.create()
+        return _tuple_sorts[key]
+
+    def wrap(self, t):
+        S = self.sort()
+        return VTuple([ty.wrap(S.accessor(0, i)(t)) for i, ty in enumerate(self.items)])
+
+    def term(self, v):
+        S = self.sort()
+        if not isinstance(v, VTuple) or len(v.items) != len(self.items):
+            raise Unsupported("tuple shape")
+        return S.constructor(0)(*[value_term(x, ty) for x, ty in zip(v.items, self.items)])
+
+
+def value_term(v, ty):
+    """z3 term of value v seen at type ty (for storing into containers)"""
+    if isinstance(ty, TTuple):
+        return ty.term(v)
+    if isinstance(ty, TOptional):
+        return opt_term(v)
+    if ty is TFloat and isinstance(v, VInt):
+        return z3.FreshConst(Opq, "float")
+    if not hasattr(v, "t"):
+        raise Unsupported(f"value of type {v.ty} has no term")
+    if v.t.sort() != ty.sort():
+        raise Unsupported(f"value of sort {v.t.sort()} stored at type {ty}")
+    return v.t
+
+
+class VSeq(V):
+    """a read-only sequence given by its length and an element function (dict.items(),
+    enumerate(...))"""
+
+    def __init__(self, n, at):
+        self._n = n
+        self._at = at
+        self.ty = TOpaque
+
+    def len(self):
+        return self._n
+
+    def at(self, i):
+        return self._at(i)
 
 
 class TDict(T):
